@@ -1194,6 +1194,27 @@ def run(chk):
     for k_ in reader_only:
         if k_ not in used_ro:
             chk.info(r_s, "tables/c05_reader_only.json: entry %s::%s not needed on this tree" % k_)
+    # ---- C05.cache: lazily built output caches are dropped when what they were built from changes
+    from verif import lazycache
+    r_lc = chk.rule("C05.cache", "a mutable member that a const accessor fills when it is empty (UDQActive::output_data behind iuad(), SummaryState::well_names, UDQDefine::string_data, ...) is emptied on every path from a statement that modifies one of the members it is built from to the return of that function: otherwise the restart file is written from records of a schedule that no longer exists (IUAD out of step with IUAP)", floor=6)
+    waived = core.load_table("c05_cache_waived.json")
+    SKIP = {"Opm::EclipseGrid": "constructed by private init functions before any query; its cache is governed by C13.maps"}
+    n_c = 0
+    cx = chk.facts(["opm/input/eclipse/Schedule/UDQ/UDQActive.cpp", "opm/input/eclipse/Schedule/UDQ/UDQDefine.cpp", "opm/input/eclipse/Schedule/SummaryState.cpp",
+                    "opm/io/eclipse/rst/udq.cpp", "opm/output/eclipse/UDQDims.cpp", "opm/input/eclipse/Schedule/UDQ/UDQConfig.cpp"], files_re="^/repo/opm/")
+    for q, M, srcs, f, node, src, bad in lazycache.check(cx):
+        if q in SKIP or "(anonymous namespace)" in q:
+            continue
+        n_c += 1
+        key = "%s::%s<-%s" % (q, M, f["n"])
+        chk.instance(r_lc, key + "@" + str(n_c), sample=dict(cls=q, cache=M, built_from=sorted(srcs), function=f["q"], modifies=src, statement=show(node)[:70], emptied_on_every_path=not bad))
+        if bad:
+            if key in waived:
+                chk.info(r_lc, "%s modifies %s without emptying the cache %s - latent: %s" % (f["q"], src, M, waived[key]))
+                continue
+            exits = ", ".join("line %s" % b[2] if isinstance(b, tuple) else b for b in bad)
+            chk.violation(r_lc, key, "%s modifies %s (`%s`) and can return (%s) without emptying %s, which %s::%s() only rebuilds when it is empty: the accessor keeps handing out records built from the old %s" % (f["q"], src, show(node)[:60], exits, M, q.split("::")[-1], "iuad" if M == "output_data" else "accessor", src), f["file"], node["l"])
+
     chk.assumptions += [
         "slots are joined on the array enum and enumerator (XGRP: on the integer of the key->index tables)",
         "mnemonic->measure and slot-name->mnemonic grammars frozen in rules/C05.py (documented Eclipse naming)",
